@@ -1,4 +1,8 @@
 import USProofs.RealInst
+import USProofs.TrueGrad
+import USProofs.Properties.C05
+import USProofs.Properties.C01
+import USProofs.Properties.C02
 import USProofs.Properties.C07
 import USProofs.Properties.C10
 import USProofs.Properties.C11
